@@ -38,6 +38,7 @@ def scope_specs(tier, seed):
         {"sid": "list", "family": "lists_q", "size": 9 if q else 10, "donor": ("lists_q", 7 if q else 8)},
         {"sid": "table", "family": "table", "size": 12 if q else 14, "donor": ("table", 10 if q else 12)},
         {"sid": "topmarks", "family": "topmarks", "size": 4 if q else 5, "donor": ("topmarks", 3 if q else 4)},
+        {"sid": "inlstrict", "family": "inlstrict", "size": 4 if q else 5, "donor": ("inlstrict", 3)},
     ]
     extra = [
         {"sid": "iso", "family": "iso", "size": 7 if q else 8, "donor": ("iso", 6 if q else 7)},
@@ -148,6 +149,21 @@ def check_step(c, d, node, T, sd, res):
         res.violate("c01.json-twin.raises", case, common.exc_str(e),
                     fingerprint="c01.json-twin.raises:" + sd["stepType"] + ":" + common.exc_fp(e), size=size)
         return out
+    # an untrusted peer may list marks in any order: the decoded step must behave the same
+    sj2 = json.loads(json.dumps(sj))
+    if _reverse_marks(sj2):
+        try:
+            twin2 = adapters.Step.from_json(c.schema, sj2)
+            o3 = apply_outcome(twin2, node)
+            res.transitions += 1
+            same3 = o3[0] == kind and (kind != "doc" or jkey(o3[1].to_json()) == jkey(out[1].to_json()))
+            if not same3:
+                res.violate("c01.json-twin.mark-order", case,
+                            [kind, o3[0], jkey(o3[1].to_json())[:200] if o3[0] == "doc" else str(o3[1])[:200]],
+                            fingerprint="c01.json-twin.mark-order:" + sd["stepType"], size=size)
+        except Exception as e:  # noqa: BLE001
+            res.violate("c01.json-twin.raises", case, common.exc_str(e),
+                        fingerprint="c01.json-twin.raises:" + sd["stepType"] + ":" + common.exc_fp(e), size=size)
     out2 = apply_outcome(twin, node)
     res.transitions += 1
     same = out2[0] == kind and (kind != "doc" or jkey(out2[1].to_json()) == jkey(out[1].to_json()))
@@ -156,6 +172,23 @@ def check_step(c, d, node, T, sd, res):
                     [kind, out2[0], jkey(out2[1].to_json())[:200] if out2[0] == "doc" else str(out2[1])[:200]],
                     fingerprint="c01.json-twin.differs:" + sd["stepType"], size=size)
     return out
+
+
+def _reverse_marks(j):
+    """Reverse every mark list with >= 2 entries inside a step's JSON (in place). True if anything changed."""
+    changed = False
+    if isinstance(j, dict):
+        for k, v in j.items():
+            if k == "marks" and isinstance(v, list) and len(v) >= 2:
+                v.reverse()
+                changed = True
+            elif _reverse_marks(v):
+                changed = True
+    elif isinstance(j, list):
+        for v in j:
+            if _reverse_marks(v):
+                changed = True
+    return changed
 
 
 def run_fmarks(u, res):
